@@ -20,6 +20,10 @@ THEOREMS = ['C01_order', 'C01_invalid', 'C01_payload', 'C01_unknown_event']
 
 def gen(rng, i, tier):
     c = flat.gen_case(rng, malformed=(i % 7 == 6), p_build=0.3, p_self=0.15)
+    if i % 3 == 2:
+        # the markup / diagram classes re-declare add_transition, add_states, remove_transition (class equivalence
+        # proper is C09; here they carry the construction routes)
+        c['cls'] = ['MarkupMachine', 'GraphMachine', 'LockedMachine'][(i // 3) % 3]
     if i % 4 == 1:
         # may_<event>() calls interleaved with the triggers: they must not influence what later triggers do
         hist = []
